@@ -20,6 +20,11 @@ Decided (necessary conditions of the sum identity; the numeric content is not de
           reduced by an amount that the same pass compared with the entry's *current* value (a value read
           from the table before its last change is stale); decided per symbolic path of the covering
           loop (shared with C02.BOOK).
+  C01.GRP every battery group reaches the algorithm at most once: the collection that flows into the `components`
+          argument of distribute_power (followed back through parameters, locals and `self.<method>()` results to the
+          statements that fill it) is a set / dict, or every addition is dominated by a membership test over
+          everything collected so far; the allocation routine keys its cells by inverter set but books once per
+          entry, so a repeated entry books its minimum power twice (_c01_util.py).
   C01.B   reported == commanded: the map sent to the API is the distribution itself, the
           reported distributed power is request - remainder, a call booked as failed always
           has its set-point booked as failed power (and vice versa), and the wait over the set_power
@@ -1826,6 +1831,20 @@ CONTROLS = [
     ("set_power wait ends at the first finished call",
      "microgrid._power_distributing._component_managers._battery_manager",
      "            return_when=asyncio.ALL_COMPLETED,\n", "            return_when=\"FIRST_COMPLETED\",\n", "C01.B"),
+    ("battery groups de-duplicated against the previous entry only",
+     "microgrid._power_distributing._component_managers._battery_manager",
+     "        battery_sets: frozenset[frozenset[int]] = frozenset(\n"
+     "            self._bat_bats_map[working_battery] for working_battery in working_batteries\n        )\n",
+     "        battery_sets: list[frozenset[int]] = []\n"
+     "        for working_battery in sorted(working_batteries):\n"
+     "            battery_set = self._bat_bats_map[working_battery]\n"
+     "            if not battery_sets or battery_sets[-1] != battery_set:\n"
+     "                battery_sets.append(battery_set)\n", "C01.GRP"),
+    ("battery groups collected once per battery", "microgrid._power_distributing._component_managers._battery_manager",
+     "        battery_sets: frozenset[frozenset[int]] = frozenset(\n"
+     "            self._bat_bats_map[working_battery] for working_battery in working_batteries\n        )\n",
+     "        battery_sets = [\n"
+     "            self._bat_bats_map[working_battery] for working_battery in working_batteries\n        ]\n", "C01.GRP"),
 ]
 
 
@@ -1836,6 +1855,9 @@ def run_rules(run: Run, prog: Program) -> None:
     check_sign(run, prog)
     check_b(run, prog)
     check_reserve_sign(run, prog)
+    from ._c01_util import check_groups
+
+    check_groups(run, prog)
 
 
 def check(run: Run, prog: Program, tier: str) -> str:
@@ -1850,6 +1872,9 @@ def check(run: Run, prog: Program, tier: str) -> str:
     run.rule("C01.SGN", "deficit covering never makes a reserve entry negative: an entry becomes zero or is reduced by an "
              "amount the same pass compared with the entry's current value (no stale donor snapshot), so no set-point "
              "falls below its minimum power / gets the opposite sign")
+    run.rule("C01.GRP", "the list of component groups handed to the distribution algorithm holds each battery group at "
+             "most once: it is collected in a set / dict, or every addition is dominated by a membership test over "
+             "everything collected so far (the algorithm keys its cells by inverter set but books once per entry)")
     run.rule("C01.B", "reported distributed power == request - remainder; API map == distribution; the wait "
              "over the set_power tasks is ALL_COMPLETED-or-timeout")
     run_rules(run, prog)
@@ -1859,6 +1884,7 @@ def check(run: Run, prog: Program, tier: str) -> str:
     run.floor("C01.S", 9)
     run.floor("C01.B", 7)
     run.floor("C01.SGN", 2)
+    run.floor("C01.GRP", 2)
     from ..engine.controls import run_controls
 
     run_controls(run, CONTROLS, run_rules, tier)
